@@ -82,6 +82,9 @@ type VerifFleet struct {
 	// Eager: fair deterministic environment — before every GTID read every running IO thread has
 	// retrieved everything its (alive) source executed and every running SQL thread has applied it
 	Eager bool
+	// ApplyAfterSleeps: in Eager mode, SQL threads apply nothing until the code under test has
+	// slept this many times (applying relay logs takes time: a replica that needs polls to catch up)
+	ApplyAfterSleeps int
 	// Checkpoint is called after every mutating statement took effect (or failed).
 	Checkpoint func(host, stmt string)
 	// Before is called when a mutating statement arrives, before it takes effect.
@@ -190,6 +193,10 @@ func (f *VerifFleet) fault(host, stmt string, mutating bool) (error, bool) {
 // havoc: spontaneous environment steps that mysync does not control.
 func (f *VerifFleet) havoc() {
 	if f.Eager {
+		stalled := f.ApplyAfterSleeps > 0 && verifnd.SleepCount < f.ApplyAfterSleeps
+		if stalled {
+			verifnd.Reach("fleet.slow-poll")
+		}
 		for pass := 0; pass < 2; pass++ {
 			for _, h := range f.Hosts {
 				s := f.Servers[h]
@@ -199,7 +206,7 @@ func (f *VerifFleet) havoc() {
 				if src := f.Servers[s.Source]; src != nil && src.Alive && s.IORunning {
 					s.Retrieved |= src.Executed
 				}
-				if s.SQLRunning {
+				if s.SQLRunning && !stalled {
 					s.Executed |= s.Retrieved
 				}
 			}
